@@ -127,7 +127,9 @@ func init() {
 	restartWord := func(length int, withB bool) func() {
 		return func() {
 			k := newKeyed(always(iUntilCancelled), false, false)
-			k.SetContext(context.WithValue(bg, ctxKey{}, 0), false)
+			root, cancelRoot := context.WithCancel(context.WithValue(bg, ctxKey{}, 0))
+			defer cancelRoot()
+			k.SetContext(root, false)
 			k.SetKey("a", true)
 			if withB {
 				k.SetKey("b", true)
@@ -137,10 +139,14 @@ func init() {
 			}
 			nletters := 6
 			if length <= 2 && !withB {
-				nletters = 8
+				nletters = 10
 			}
 			for i := 0; i < length; i++ {
 				switch vsched.Choose(nletters) {
+				case 8:
+					cancelRoot() // the context given to SetContext is cancelled from outside
+				case 9:
+					k.SetKey("a", true)
 				case 6:
 					k.ResetAllRoutines()
 				case 7:
@@ -183,7 +189,7 @@ func init() {
 	})
 	eng.Register(&eng.Scenario{
 		Name: "keyed-restart-word2", Props: []string{"C07"}, ObsNames: stdObs,
-		Doc:   "Keyed: as keyed-restart-word3 with words of length 2 over the alphabet extended by ResetAllRoutines and ResetRoutine(a, conds...), and a deeper schedule bound",
+		Doc:   "Keyed: as keyed-restart-word3 with words of length 2 over the alphabet extended by ResetAllRoutines, ResetRoutine(a, conds...), SetKey(a,true) and the cancellation of the current context from outside, and a deeper schedule bound",
 		Quick: eng.Bounds{PB: 2, Delay: true}, Thorough: eng.Bounds{PB: 4, Delay: true},
 		Body: restartWord(2, false),
 	})
@@ -360,6 +366,50 @@ func init() {
 		},
 	})
 
+	eng.Register(&eng.Scenario{
+		Name: "keyed-extcancel", Props: []string{"C07"}, ObsNames: stdObs,
+		Doc:   "Keyed whose context is cancelled by its owner from outside (not through SetContext/ClearContext) while key a is running and slow to return; then every word of length 2 over {SetKey(a,true), SetKey(a,false), SetContext(fresh,true), RestartRoutine(a), ResetRoutine(a), SyncKeys([a],true)}: no replacement enters before the cancelled instance has returned",
+		Quick: eng.Bounds{PB: 2, Delay: true}, Thorough: eng.Bounds{PB: 3, Delay: true},
+		Body: func() {
+			k := newKeyed(always(iUntilCancelled), false, false)
+			root, cancelRoot := context.WithCancel(context.WithValue(bg, ctxKey{}, 0))
+			defer cancelRoot()
+			k.SetContext(root, false)
+			k.SetKey("a", true)
+			vsched.Settle() // the first instance is inside its function
+			cancelRoot()
+			for i := 0; i < 2; i++ {
+				switch vsched.Choose(6) {
+				case 0:
+					k.SetKey("a", true)
+				case 1:
+					k.SetKey("a", false)
+				case 2:
+					k.SetContext(context.WithValue(bg, ctxKey{}, i+1), true)
+				case 3:
+					k.RestartRoutine("a")
+				case 4:
+					k.ResetRoutine("a")
+				case 5:
+					k.SyncKeys([]string{"a"}, true)
+				}
+				if l := liveKeyed(0); l > 1 {
+					fail("C07.two-live", "%d instances of key a with a live context after a controller call returned", l)
+				}
+			}
+			vsched.Settle()
+			k.ClearContext()
+			vsched.CtrSet(kRemovedA, 1)
+			if l := liveKeyed(0); l != 0 {
+				fail("C07.not-cancelled", "%d instance(s) still have a live context after ClearContext returned", l)
+			}
+			vsched.Settle()
+			if vsched.Ctr(kActiveA) != 0 {
+				fail("C07.not-cancelled", "instances still executing at quiescence after ClearContext")
+			}
+		},
+	})
+
 	// K2: removal
 	eng.Register(&eng.Scenario{
 		Name: "keyed-removal", Props: []string{"C07"}, ObsNames: stdObs,
@@ -463,6 +513,41 @@ func init() {
 				}
 			} else if vsched.Ctr(kActiveA) != 0 {
 				fail("C07.not-cancelled", "key a is not in the set but an instance of it is still executing at quiescence")
+			}
+			k.ClearContext()
+		},
+	})
+	eng.Register(&eng.Scenario{
+		Name: "keyed-retry-ctx", Props: []string{"C07"}, ObsNames: stdObs, RacePB: 2,
+		Doc:   "Keyed with retry back-off: key a fails on its first run; around the failure and the retry timer one or two calls of SetContext(fresh, restart=false) (which leaves a failed routine to its pending retry) mixed with SetKey(a,false); at quiescence key a must be running again, exactly once",
+		Quick: eng.Bounds{PB: 2}, Thorough: eng.Bounds{PB: 3},
+		Body: func() {
+			k := newKeyed(func(key string, run int) int {
+				if key == "a" && run == 1 {
+					return iReturnErr
+				}
+				return iUntilCancelled
+			}, false, true)
+			k.SetContext(bg, false)
+			k.SetKey("a", true)
+			if vsched.Choose(2) == 1 {
+				vsched.Settle()
+			}
+			for i := 0; i < 2; i++ {
+				switch vsched.Choose(3) {
+				case 0:
+					k.SetContext(context.WithValue(bg, ctxKey{}, i+1), false)
+				case 1:
+					k.SetKey("a", false)
+				case 2:
+				}
+			}
+			vsched.Settle() // auto timers: the retry timer has run by now
+			if r := vsched.Ctr(kRunsA); r < 2 {
+				fail("C07.retry-lost", "key a failed once and is still in the set with retry configured, but it ran only %d time(s) by quiescence", r)
+			}
+			if vsched.Ctr(kActiveA) != 1 || liveKeyed(0) != 1 {
+				fail("C07.retry-lost", "key a is in the set but %d instance(s) are executing and %d have a live context at quiescence", vsched.Ctr(kActiveA), liveKeyed(0))
 			}
 			k.ClearContext()
 		},
